@@ -105,6 +105,7 @@ struct Engine {
 	long chunk_ctr = 0;
 	size_t recv_fault_at = (size_t)-1; // absolute inq offset at which the planned transport fault fires
 	int recv_fault_kind = 0;
+	size_t stray_left = 0; // bytes of a stray PDU (delivered in ESTABLISHED) the client has not read yet
 	bool recv_fault_more = false; // the fault is an EINTR and the rest of the answer stays readable
 	bool cut_after_queue = false;
 	// cache
